@@ -51,3 +51,62 @@ def run(unit, em):
             em.violation(fn, name, 'member(s) %s of the key are read neither by the hash functor nor by operator==: two keys that differ only there are identified' % ', '.join(missing))
         else:
             em.ok(fn, name, 'hash reads {%s}, operator== reads {%s}: together all of {%s}' % (', '.join(sorted(hashed)), ', '.join(sorted(eq)), ', '.join(allf)))
+
+
+# ---- clause `twins`: comparison methods of one key type with the same signature look at the same members
+def compared_fields(unit, fn):
+    """members f of the own record that the method reads both on itself and on its first parameter"""
+    if not fn.params:
+        return set()
+    pd = fn.params[0]['d']
+    mine, theirs = set(), set()
+    for n in fn.walk():
+        if n['k'] != 'MemberExpr' or n.get('dk', 'field') != 'field':
+            continue
+        b = n.get('ch') or [n.get('obj')]
+        x = strip(b[0]) if b and b[0] else None
+        if x is None or x['k'] == 'CXXThisExpr':
+            mine.add(n.get('n'))
+        elif x['k'] == 'DeclRefExpr' and x.get('d') == pd:
+            theirs.add(n.get('n'))
+    return mine & theirs
+
+
+def run_twins(unit, em):
+    groups = {}
+    for fn in unit.functions:
+        if fn.body is None or not fn.d.get('rcd') or not fn.params or not fn.d.get('const'):
+            continue
+        if unit.tname(fn.d.get('ret')) != 'bool' or len(fn.params) < 2:
+            continue        # operator== (one parameter) is checked against the hash by the main clause
+        rc = unit.tname(fn.d.get('rc', -1))
+        pt = [unit.ty(p).replace('const ', '').replace('&', '').strip() for p in fn.params]
+        if pt[0] != rc.replace('const ', '').strip():
+            continue
+        groups.setdefault((fn.d['rcd'], tuple(pt)), []).append(fn)
+    for (rcd, pt), fns in groups.items():
+        # de-duplicate instantiations of the same method
+        byname = {}
+        for f in fns:
+            byname.setdefault(f.q.split('::')[-1], f)
+        if len(byname) < 2:
+            continue
+        sets = {n: compared_fields(unit, f) for n, f in byname.items()}
+        names = sorted(byname)
+        ref = set().union(*sets.values())
+        first = byname[names[0]]
+        cname = 'comparison twins %s of %s' % ('/'.join(names), unit.tname(first.d.get('rc', -1)).split('::')[-1])
+        bad = [(n, sorted(ref - s)) for n, s in sets.items() if ref - s]
+        if bad:
+            n, miss = bad[0]
+            em.violation(byname[n], cname, '`%s` does not compare the member(s) %s that its twin(s) with the same signature compare: elements that differ only there are treated as equal/related by one and distinct by the other (e.g. environments f(□,q) and f(q,□) start in one partition block)' % (n, ', '.join(miss)), 'twins')
+        else:
+            em.ok(first, cname, 'all compare %s' % ', '.join(sorted(ref)), 'twins')
+
+
+_run_main = run
+
+
+def run(unit, em):
+    _run_main(unit, em)
+    run_twins(unit, em)
